@@ -12,7 +12,7 @@ def run(tier, seed):
     g = gen.Gen(seed * 7919 + 8)
     progs = []
     while len(progs) < n:
-        p = g.program({"requests": True, "nstrat": g.rng.choice([0, 1, 2, 2]), "cross": 0.5, "full_filters": 0.4,
+        p = g.program({"requests": True, "nstrat": g.rng.choice([0, 1, 2, 2]), "cross": 0.5, "full_filters": 0.4, "min_strata": g.rng.choice([1, 2, 2]),
                        "nsteps": g.rng.choice([2, 3, 4]), "nonlinear": g.rng.random() < 0.35,
                        "t0": g.rng.choice(["0", "1", "-2", "-1", "5/2", "-3/2"])})
         reqs = [{"name": o["name"], "req": o["req"], "save": o.get("save", True)} for o in p["ops"] if o["op"] == "req"]
@@ -39,6 +39,16 @@ def run(tier, seed):
             late = {"op": "flow", "kind": "importation", "name": g.rng.choice(fl_reqs)["req"]["flow_name"],
                     "param": g.rng.choice(["3/2", "5", {"+": ["1", "t"]}]), "dst": p["comps"][0]}
             p["ops"] = [o for o in p["ops"] if o["op"] != "whitelist"] + [late] + wl_
+        if any(o["op"] == "req" and o["req"]["type"] == "cv" for o in p["ops"]) and g.rng.random() < 0.7:
+            # a second (and third) computed value with its own output, requested after the first one
+            wl_ = [o for o in p["ops"] if o["op"] == "whitelist"]
+            more = [{"op": "cv", "name": "cvB", "e": {"*": [{"c": 0}, "1/4"]}},
+                    {"op": "req", "name": "cvB", "save": True, "req": {"type": "cv", "name": "cvB"}}]
+            if g.rng.random() < 0.5:
+                more += [{"op": "cv", "name": "cvC", "e": {"+": ["3", {"*": ["2", "t"]}]}},
+                         {"op": "req", "name": "cvC", "save": g.rng.random() < 0.7, "req": {"type": "cv", "name": "cvC"}}]
+            p["ops"] = [o for o in p["ops"] if o["op"] != "whitelist"] + more + wl_
+            reqs += [{"name": o["name"], "req": o["req"], "save": o.get("save", True)} for o in more if o["op"] == "req"]
         wl = [o["names"] for o in p["ops"] if o["op"] == "whitelist"]
         cvs = {o["name"]: o["e"] for o in p["ops"] if o["op"] == "cv"}
         pv = g.params_values(small=True)
